@@ -99,6 +99,16 @@ def _rw(t):
 
 
 def _extract(s, off, n):
+    if z3.is_app(s) and s.decl().kind() == z3.Z3_OP_SEQ_EXTRACT and is_zero(off):
+        # extract(extract(s, a, k), 0, n) = extract(s, a, min(n, k))   (holds for ALL a, k, n incl. out-of-range ones:
+        # both sides are empty when a is out of range or k <= 0 or n <= 0; otherwise both are the first
+        # min(n, k, len(s) - a) elements from a)
+        s0, a, k = s.children()
+        if is_zero(k - (z3.Length(s0) - a)):
+            # inner extract runs to the end of s0: the outer length alone decides (extract clamps at the end anyway)
+            return z3.Extract(s0, a, n)
+        m = z3.simplify(z3.If(n <= k, n, k))
+        return z3.Extract(s0, a, m)
     parts = flat(s)
     if len(parts) < 2:
         return None
